@@ -92,11 +92,12 @@ def _lookup(ns, qualname):
 def _generic_case_replay(check, case):
     """python text re-running a module-level check function on one enumerated case (if the case has an eval-able repr)"""
     try:
-        if eval(repr(case)) != case or "<" in check.__qualname__:
+        from fractions import Fraction
+        if eval(repr(case), {"Fraction": Fraction, "inf": float("inf"), "nan": float("nan")}) != case or "<" in check.__qualname__:
             return None
     except Exception:
         return None
-    return (f"import importlib\nm = importlib.import_module({check.__module__!r})\n"
+    return (f"import importlib\nfrom fractions import Fraction\nm = importlib.import_module({check.__module__!r})\n"
             f"OK, OBSERVED = m.{check.__name__}({case!r})\nOK = bool(OK)")
 
 
